@@ -330,6 +330,21 @@ def _def_calls(tree: Tree, fn: FuncInfo, rd: RD, expr: ast.AST) -> set[str]:
     return out
 
 
+def check_amplitude_stored(ctx: Check, tree: Tree) -> None:
+    """The coherent sum over the chains of a topology group is stored, unconditionally, as the
+    definition of the amplitude symbol the intensity refers to."""
+    tam = tree.func(f"{BUILDER}.__formulate_topology_amplitude")
+    tard = RD(tam.node)
+    stores = [n for n in walk_function(tam.node) if isinstance(n, ast.Assign) and isinstance(n.targets[0], ast.Subscript) and unparse(n.targets[0].value).endswith(".amplitudes")]
+    ok = False
+    if len(stores) == 1 and not any(isinstance(a, (ast.If, ast.For)) for a in ancestors(stores[0]) if a is not tam.node):
+        keyc = _def_calls(tree, tam, tard, stores[0].targets[0].slice)
+        rets_t = [r for r, _ in tard.returns]
+        same_value = len(rets_t) == 1 and isinstance(stores[0].value, ast.Name) and isinstance(rets_t[0].value, ast.Name) and tard.reaching(stores[0].value) == tard.reaching(rets_t[0].value)
+        ok = "create_amplitude_symbol" in keyc and same_value
+    ctx.verdict(ok, "R-FOLD", f"{tam.qual}::amplitude-stored", tree.loc(tam.node), "the coherent sum that is returned is also stored unconditionally as model.amplitudes[create_amplitude_symbol(...)]")
+
+
 def check_products(ctx: Check, tree: Tree) -> None:
     """coefficient x product(nodes) x prefactor; |coherent sum|^2 ; D x dynamics (x CG)."""
     seq = tree.func(f"{BUILDER}.__formulate_sequential_decay")
@@ -342,10 +357,34 @@ def check_products(ctx: Check, tree: Tree) -> None:
     ctx.verdict(ok, "R-FOLD", f"{seq.qual}::returns-product", tree.loc(rets[0]),
                 "sequential amplitude = coefficient x reduce(mul, partial decays of all nodes) [x prefactor]", None if ok else sorted(c for c in calls if "::" not in c))
     mults = [n for n in walk_function(seq.node) if isinstance(n, ast.AugAssign) and isinstance(n.op, ast.Mult) and "__generate_amplitude_prefactor" in _def_calls(tree, seq, rd, n.value)]
-    ctx.verdict(len(mults) == 1, "R-FOLD", f"{seq.qual}::prefactor-multiplies", tree.loc(seq.node), "the parity prefactor multiplies the whole sequential amplitude")
+    problems = []
+    if len(mults) != 1:
+        problems.append(f"{len(mults)} statements multiply the prefactor into the amplitude")
+    else:
+        guards = [a for a in ancestors(mults[0]) if isinstance(a, ast.If)]
+        pname = unparse(mults[0].value)
+        for g in guards:
+            t = g.test
+            ok_g = isinstance(t, ast.Compare) and len(t.ops) == 1 and isinstance(t.ops[0], ast.IsNot) and unparse(t.left) == pname and isinstance(t.comparators[0], ast.Constant) and t.comparators[0].value is None
+            if not ok_g:
+                problems.append(f"the multiplication is guarded by `{unparse(t)}`, not by `{pname} is not None`")
+    ctx.verdict(not problems, "R-FOLD", f"{seq.qual}::prefactor-multiplies", tree.loc(seq.node), "the parity prefactor multiplies the whole sequential amplitude whenever there is one", problems or None)
+    # every definition of the returned value is a plain product (coefficient x product of the nodes)
+    bad = []
+    if isinstance(rets[0].value, ast.Name):
+        for d in rd.reaching(rets[0].value):
+            if d.kind == "assign" and isinstance(d.value, ast.AST):
+                leaves: list = []
+                if not _product_leaves(d.value, leaves):
+                    bad.append(unparse(d.node)[:80])
+    ctx.verdict(not bad, "R-FOLD", f"{seq.qual}::plain-product", tree.loc(rets[0]), "every definition of the sequential amplitude is a plain product (coefficient * product of the node factors)", bad or None)
     red = [n for n in walk_function(seq.node) if isinstance(n, ast.Call) and _fold_name(n) == "reduce"]
     ok = len(red) == 1 and unparse(red[0].args[0]) in {"operator.mul", "mul"}
     ctx.verdict(ok, "R-FOLD", f"{seq.qual}::reduce-mul", tree.loc(seq.node), "the per-node factors are combined with operator.mul")
+    check_amplitude_stored(ctx, tree)
+    cstores = [n for n in walk_function(seq.node) if isinstance(n, ast.Assign) and isinstance(n.targets[0], ast.Subscript) and unparse(n.targets[0].value).endswith(".components")]
+    ok = len(cstores) == 1 and isinstance(cstores[0].value, ast.Name) and isinstance(rets[0].value, ast.Name) and rd.reaching(cstores[0].value) == rd.reaching(rets[0].value) and not any(isinstance(a, (ast.If, ast.For)) for a in ancestors(cstores[0]) if a is not seq.node)
+    ctx.verdict(ok, "R-FOLD", f"{seq.qual}::component-stored", tree.loc(seq.node), "every chain amplitude that is returned is stored unconditionally as component A_{...} (the complete expression incl. prefactor)")
     top = tree.func(f"{BUILDER}.__formulate_top_expression")
     trd = RD(top.node)
     ps = [n for n in walk_function(top.node) if isinstance(n, ast.Call) and unparse(n.func) == "PoolSum"]
